@@ -18,21 +18,15 @@ def classify(case, kind):
     exit_ = case.get("exit")
     panicked = "panicked at" in case.get("stderr", "")
     located = re.search(r"\.graphql:\d+:\d+", out) is not None
-    if "parse-error-at-end-of-input-not-located" in known:
-        # exit 1 with a parse error whose message carries no "path:line:column"
-        if exit_ == 1 and "Parse error" in out and not located:
-            cls.add("parse-error-at-end-of-input-not-located")
     if "generate-stage-error-not-located" in known:
         if exit_ == 1 and "Type for scalar" in out and not located:
             cls.add("generate-stage-error-not-located")
     if "unspread-fragment-not-checked-then-generate-panics" in known:
-        # `check` accepts the document (C03 finding): no diagnostic names the file of the injected fault ...
+        # `check` accepts the document (C03 finding): no diagnostic names the file of the injected fault, and
+        # `generate` then panics on it (C08 finding; exit status 101, no output document)
         files = [f for ft in case.get("faults", []) if ft.get("known") for f in ft.get("files", [])]
         if not any(f in out or f.replace("/", "\\/") in out for f in files):
             cls.add("unspread-fragment-not-checked-then-generate-panics")
-    if exit_ == 0 and panicked:
-        # ... and a panic (here: of `generate` on that document, C08 finding) is swallowed by the async runtime
-        cls.add("panic-ends-with-status-0")
     return cls
 
 
@@ -54,13 +48,13 @@ def run(ctx):
             extra_trusted=[
                 "stage oracles: what parser, resolvers, checker and printers answer for the files of a project is an input of the model; the harness obtains it by running the same crates in process, stage by stage as crates/cli/src/main.rs and check.rs do (its own copy of that glue, since nitrogql-cli is a bin crate)",
                 "PositionedError.additional_info has no accessor: read from the derived Debug output",
-                "modelled from their sources/documentation: json-writer 0.4.0 (escaping, compact layout), std str::lines / char::is_whitespace / Path::{join,file_name,set_file_name,set_extension}, globmatch (matched paths are returned sorted), colored (no colours when the output is piped), async-task (a panic of a detached task is caught and dropped)",
+                "modelled from their sources/documentation: json-writer 0.4.0 (escaping, compact layout), std str::lines / char::is_whitespace / Path::{join,file_name,set_file_name,set_extension}, globmatch (matched paths are returned sorted), colored (no colours when the output is piped), async-task (a panic of a detached task is caught and dropped; main then exits with 101)",
                 "spec side (coq/C18/Spec.v): JSON reader written from RFC 8259 (unsigned integers only), GraphQL tokenizer written from spec section 2.1 (line breaks at \\n, columns in scalar values: the conventions of the reported positions), 'path:line:column' scanner",
                 "process and file-system behaviour (exit status, stdout/stderr, directory snapshot before/after) is observed on the real binary, not proved; file-system calls of generate are assumed to succeed in the model",
             ],
             assumptions=[
                 "schema files are GraphQL SDL files (no introspection JSON, no schema.js); plugins: nitrogql:model-plugin or unknown names; configuration comes from graphql.config.yaml",
-                "theorems about exit status and output exclude panics by a computable guard (a panic ends the process with status 0: C18_panic_exits_zero_refuted)",
+                "a panic is the outcome Crash with exit status 101; C18_no_panic_guard gives a computable condition on the stage answers that excludes it",
             ],
         )
     finally:
